@@ -1,6 +1,7 @@
 (* C07 -- voltage frequency registration: the written header locates every tone. *)
 From Coq Require Import ZArith QArith.
 From SV Require Import Model.FreqReg Proofs.FreqReg Model.Stream Proofs.Stream.
+From SV Require Import Kernels.Gen07 Proofs.K07.
 Local Open Scope Q_scope.
 
 Theorem c07_header_locates_channel : forall fch1 cbw start_chan nchans nants sr nb j,
@@ -43,6 +44,13 @@ Theorem c07_chirp : forall f_start fch1 drift asc t h, ~ h == 0 ->
   == (if asc then 1 else -1) * ((f_start - fch1) + drift * t).
 Proof. exact chirp_frequency. Qed.
 Print Assumptions c07_chirp.
+
+(* the centre-frequency expressions of the CURRENT source (Kernels/Gen07.v, regenerated on every run) are the model's *)
+Theorem c07_source_kernels : forall fch1 cbw start_chan nchans nants sr nb h,
+  (OBSFREQ (header fch1 cbw start_chan nchans nants sr nb) == src_center_freq fch1 cbw start_chan nchans * mhz)%Q /\
+  (raw_params_fch1 h start_chan nchans == src_raw_params_fch1 (OBSFREQ h / mhz) (CHAN_BW h / mhz) start_chan nchans)%Q.
+Proof. exact k07_all. Qed.
+Print Assumptions c07_source_kernels.
 
 Example c07_example :
   let h := header (6000000000#1) (- (1000000#1)) 5 4 1 (64000000#1) 64 in
